@@ -888,6 +888,7 @@ func c12Eval(r *core.Run) {
 // big.Int's Quo/Rem, never the Euclidean Div/Mod/DivMod, anywhere in the package.
 func c12Build(r *core.Run) {
 	p := r.P
+	r.Explain += " (BUILD) the summary builder opens only constants, header phis and binary operations, and big-integer division in the loop package is the truncated one (Quo/Rem), as Go's."
 	allowed := map[string]string{
 		"ssa.Const": "literal value",
 		"ssa.Phi":   "a header phi recorded as induction variable becomes {start,+,step}; any other phi stays unknown",
